@@ -374,12 +374,21 @@ impl GuestSpec {
                 Block::Bset { aa, bit } => a.bset_abs8(*bit & 7, *aa),
                 Block::Bclr { aa, bit } => a.bclr_abs8(*bit & 7, *aa),
                 Block::BitOp { aa, bit, op } => {
-                    a.w(0x7f00 | *aa as u16);
-                    a.w(match op {
-                        0 => 0x7100 | (((*bit & 7) as u16) << 4),
-                        1 => 0x6700 | (((*bit & 7) as u16) << 4),
-                        _ => 0x6780 | (((*bit & 7) as u16) << 4),
-                    });
+                    let b = ((*bit & 7) as u16) << 4;
+                    match op {
+                        // read-modify-write forms (7F aa ..): BNOT, BST, BIST
+                        0 => { a.w(0x7f00 | *aa as u16); a.w(0x7100 | b); }
+                        1 => { a.w(0x7f00 | *aa as u16); a.w(0x6700 | b); }
+                        2 => { a.w(0x7f00 | *aa as u16); a.w(0x6780 | b); }
+                        // read-only forms (7E aa ..): BTST, BLD, BAND, BOR, BXOR - they read the byte and store nothing
+                        3 => { a.w(0x7e00 | *aa as u16); a.w(0x7300 | b); }
+                        4 => { a.w(0x7e00 | *aa as u16); a.w(0x7700 | b); }
+                        5 => { a.w(0x7e00 | *aa as u16); a.w(0x7600 | b); }
+                        6 => { a.w(0x7e00 | *aa as u16); a.w(0x7400 | b); }
+                        7 => { a.w(0x7e00 | *aa as u16); a.w(0x7500 | b); }
+                        // MOV.B @aa:8,R4L / CMP-free plain load
+                        _ => a.w(0x2c00 | *aa as u16),
+                    }
                 }
                 Block::Arith(k) => {
                     a.mov_l_imm(6, 0x1234_5678 ^ ((*k as u32) * 0x0101_0101));
@@ -406,7 +415,18 @@ impl GuestSpec {
                         d.b.push(0xee);
                     }
                     let blk = d.here();
-                    d.l(1);
+                    // the descriptor is whatever the program passes (the property puts no condition on it): chosen by the
+                    // text, so that scenario files need no extra field
+                    let h = text.iter().fold(text.len() as u32 ^ 0x9e37, |h, b| (h ^ *b as u32).wrapping_mul(0x0100_0193));
+                    d.l(match (h >> 7) % 10 {
+                        0..=3 => 1,
+                        4 => 0,
+                        5 => 2,
+                        6 => 3,
+                        7 => 0x8000_0000 | (h & 0xffff),
+                        8 => 0xffff_ffff,
+                        _ => 0x7fff_ffff,
+                    });
                     d.l(buf);
                     d.l(text.len() as u32);
                     a.mov_l_imm(0, 104);
